@@ -9,6 +9,9 @@ Per case the REAL `generate_conditions` / `generate_penalty` of /repo is run on 
   * monitor    : orientation (value <= 0 iff inequality holds, == 0 iff equality holds, strict comparators with
     their tolerance margin), penalty zero iff all satisfied / positive elsewhere / documented sum, and - for
     isolated-form systems - penalty(constraint(x)) == 0.0, all by python's own reading of the text.
+45% of the cases go through the ARGUMENT-SHAPE space of generate_conditions / generate_penalty (harness/c14_shape.py, model
+Model/EmittedPShape.lean, theorems Props/C14Shape.lean): tuples / lists / nestings of texts, hand-nested collections of condition
+functions, every form of ptype (None, one, flat, nested, longer, too short, as long as the outer sequence), join= over groups.
 """
 import sys, time, math, json, warnings
 import common
@@ -17,9 +20,10 @@ import framework, leandrv
 from framework import Finding
 import symtrans as T
 import c13
+import c14_shape
 
 PID = "C14"
-MODULE = "MysticVerif.Props.C14"
+MODULE = "MysticVerif.Props.C14Shape"          # imports Props.C14
 THEOREMS = [
     "MysticVerif.C14.condition_exact",
     "MysticVerif.C14.condition_kind",
@@ -34,6 +38,21 @@ THEOREMS = [
     "MysticVerif.C14.penjoin_or_zero_iff",
     "MysticVerif.C14.penjoin_nonneg",
     "MysticVerif.C14.penjoin_or_empty",
+    # argument shapes of generate_conditions / generate_penalty (Props/C14Shape.lean on Model/EmittedPShape.lean)
+    "MysticVerif.C14.gp_shape_penalises_every_condition",
+    "MysticVerif.C14.gp_shape_default_types",
+    "MysticVerif.C14.gp_shape_nesting_irrelevant",
+    "MysticVerif.C14.gp_shape_is_sum",
+    "MysticVerif.C14.gp_shape_zero_iff",
+    "MysticVerif.C14.gp_shape_default_zero_iff",
+    "MysticVerif.C14.gp_shape_pos_of_violation",
+    "MysticVerif.C14.gp_shape_short_ptype_drops",
+    "MysticVerif.C14.gp_join_and_zero_iff",
+    "MysticVerif.C14.gp_join_or_zero_iff",
+    "MysticVerif.C14.gp_join_and_default_zero_iff",
+    "MysticVerif.C14.gp_join_or_default_zero_iff",
+    "MysticVerif.C14.gp_join_runs_dry",
+    "MysticVerif.C14.gp_shape_constraint_drives_penalty_to_zero",
 ]
 KEY_BAND = "condition/strict-tolerance-band"
 EQ_TYPES = ["quadratic_equality", "linear_equality", "uniform_equality"]
@@ -121,6 +140,12 @@ def gen_case(rng):
         pt = rng.choice(avail_in + avail_eq)
     case.update({"k": k, "h": h, "iter": nit, "ptype": pt, "join": rng.choice([None] * 6 + ["and_", "and_", "or_", "or_"]),
                  "grouping": rng.choice(["pair", "flat", "flat"])})
+    if not case["drive"] and rng.random() < 0.012:
+        case["rels2"] = []                       # no line at all (empty text, empty collections): shaped path only
+        c14_shape.gen_shape(rng, case)
+    elif rng.random() < 0.45:
+        # HOW the lines reach generate_penalty and the form of ptype / join: the argument-shape space (harness/c14_shape.py)
+        c14_shape.gen_shape(rng, case)
     return case
 
 
@@ -143,6 +168,8 @@ def resolve_ptypes(case, names):
 
 
 def run_impl(case):
+    if case.get("shape"):
+        return c14_shape.run_impl(case)
     from mystic import symbolic as S, penalty as P, coupler as CP
     text = case_text(case)
     kw = c13.mystic_args(case)
@@ -198,19 +225,9 @@ def run_impl(case):
         except Exception as exc:
             obs["gen_raises"] = "constraint: %s: %s" % (type(exc).__name__, exc); return obs
     obs["point"] = x
-    cv = []
     with warnings.catch_warnings():
         warnings.simplefilter("ignore")
-        for f in conds:
-            try:
-                cv.append(float(f(list(x))))
-            except ZeroDivisionError:
-                cv.append("raises")
-            except OverflowError:
-                cv.append("overflow")               # python's float ** int raises where IEEE gives inf
-            except Exception as exc:
-                cv.append("error %s: %s" % (type(exc).__name__, exc))
-        obs["cvals"] = cv
+        obs["cvals"] = eval_conds(conds, x)
         try:
             obs["pen"] = float(pen(list(x)))
         except OverflowError:
@@ -225,32 +242,97 @@ def run_impl(case):
                 obs["joined_overflow"] = True
             except Exception as exc:
                 obs["joined_raises"] = "%s: %s" % (type(exc).__name__, exc)
-        # functions generated earlier must keep measuring THEIR text after another text is compiled with the same
-        # names bound to other values
-        decoy = {"tol": 7.0, "rel": 3.0}
-        for name in (case["locals"] or {}):
-            if name not in decoy:
-                decoy[name] = 11.0
-        try:
-            di, de = S.generate_conditions("x0 > x1 + 2\nx0 == 3", locals=decoy, nvars=max(2, case["n"]))
-            S.generate_penalty((di, de))([0.0] * max(2, case["n"]))
-            cv2 = []
-            for f in conds:
-                try:
-                    cv2.append(float(f(list(x))))
-                except ZeroDivisionError:
-                    cv2.append("raises")
-                except OverflowError:
-                    cv2.append("overflow")
-                except Exception as exc:
-                    cv2.append("error %s: %s" % (type(exc).__name__, exc))
-            obs["cvals_again"] = cv2
-        except Exception as exc:
-            obs["cvals_again"] = "%s: %s" % (type(exc).__name__, exc)
+        obs["cvals_again"] = after_decoy(S, case, conds, x)
     return obs
 
 
+def eval_conds(conds, x):
+    cv = []
+    for f in conds:
+        try:
+            cv.append(float(f(list(x))))
+        except ZeroDivisionError:
+            cv.append("raises")
+        except OverflowError:
+            cv.append("overflow")               # python's float ** int raises where IEEE gives inf
+        except Exception as exc:
+            cv.append("error %s: %s" % (type(exc).__name__, exc))
+    return cv
+
+
+def after_decoy(S, case, conds, x):
+    """functions generated earlier must keep measuring THEIR text after another text is compiled with the same names bound
+    to other values: the condition values once more, after a decoy compilation"""
+    decoy = {"tol": 7.0, "rel": 3.0}
+    for name in (case["locals"] or {}):
+        if name not in decoy:
+            decoy[name] = 11.0
+    try:
+        di, de = S.generate_conditions("x0 > x1 + 2\nx0 == 3", locals=decoy, nvars=max(2, case["n"]))
+        S.generate_penalty((di, de))([0.0] * max(2, case["n"]))
+        return eval_conds(conds, x)
+    except Exception as exc:
+        return "%s: %s" % (type(exc).__name__, exc)
+
+
+def tie_flags(case, order, x):
+    """positions of '!=' lines whose two sides agree to 1e-6 at x (python's own evaluation of the text)"""
+    out = {}
+    for pos, k in enumerate(order):
+        lhs, cmp, rhs = case["rels2"][k]
+        if cmp != "!=":
+            continue
+        try:
+            with warnings.catch_warnings():
+                warnings.simplefilter("ignore")
+                L = float(T.py_eval(lhs, x, case["consts"])); R = float(T.py_eval(rhs, x, case["consts"]))
+        except Exception:
+            continue
+        if math.isfinite(L) and math.isfinite(R) and abs(L - R) <= 1e-6 * (1 + abs(R)):
+            out[pos] = True
+    return out
+
+
+def overflow_flags(case, obs):
+    """positions whose condition raised OverflowError BECAUSE a `**` sub-expression of the emitted source overflows at the point
+    while its operands evaluate: python's float ** raises where IEEE (the model) continues with +-inf - which a later
+    operation may absorb (`inf**0`, `1/inf`, `min(inf, ..)`), so the model's value can be finite"""
+    import ast
+    out = {}
+    for pos, c in enumerate(obs.get("cvals", [])):
+        if c != "overflow":
+            continue
+        env = dict(T._PYENV); env["x"] = list(obs["point"]); env.update(case["consts"] or {})
+        env["tol"] = (case["locals"] or {}).get("tol", 1e-15); env["rel"] = (case["locals"] or {}).get("rel", 1e-15)
+        env["_tol"] = lambda a, tol, rel: tol + abs(a) * rel
+        env["average"] = env["mean"]; env["ptp"] = env["spread"]
+
+        def ev(node):
+            return eval(compile(ast.Expression(node), "<pow>", "eval"), {"__builtins__": {}}, env)
+        try:
+            tree = ast.parse(obs["conds"][pos][1], mode="eval")
+        except SyntaxError:
+            continue
+        with warnings.catch_warnings():
+            warnings.simplefilter("ignore")
+            for node in ast.walk(tree):
+                if isinstance(node, ast.BinOp) and isinstance(node.op, ast.Pow):
+                    try:
+                        ev(node)
+                    except OverflowError:
+                        try:
+                            ev(node.left); ev(node.right)
+                            out[pos] = True; break
+                        except Exception:
+                            continue
+                    except Exception:
+                        continue
+    return out
+
+
 def build_request(case, obs):
+    if case.get("shape"):
+        return c14_shape.build_request(case, obs)
     rels2 = case["rels2"]; consts = case["consts"]
     names = [nm for nm, _ in obs["conds"]]
     if len(names) != len(rels2):
@@ -283,6 +365,8 @@ def build_request(case, obs):
     # numpy scalars (the values of sqrt, exp, floor, ..) divide by zero / raise zero to a negative power without raising
     info = {"order": order, "ptypes": pts, "names": names, "K": float(kk) * float(hh) ** case["iter"],
             "inexact": any(T.inexact(e) for e in exprs), "np_mayraise": npfn and mayraise}
+    info["tie"] = tie_flags(case, order, obs["point"]) if info["inexact"] else {}
+    info["pow_overflow"] = overflow_flags(case, obs)
     if case.get("join"):
         cond_s = cs
         if case.get("grouping", "pair") == "pair":
@@ -314,26 +398,19 @@ def term_value(pt, K, c):
     return K if c > 0 else 0.0
 
 
-def monitor(case, obs, info):
+def line_status(case, obs, order, names):
+    """orientation / kind of EVERY condition (position `pos` of the flattening measures line `order[pos]` of the text(s)),
+    by python's own reading of the text. Returns (findings, status, usable): status[pos] = (value, satisfied, kind name) or
+    None where the line cannot be judged at this point (raises / not finite); usable = every line could be judged"""
     out = []
-    if "cvals" not in obs:
-        return out
     x = obs["point"]; consts = case["consts"]
     tol = (case["locals"] or {}).get("tol", 1e-15); rel = (case["locals"] or {}).get("rel", 1e-15)
-    ca = obs.get("cvals_again")
-    if ca is not None:
-        def _same(a, b):
-            return a == b or (isinstance(a, float) and isinstance(b, float) and a != a and b != b)
-        if isinstance(ca, str) or len(ca) != len(obs["cvals"]) or not all(_same(a, b) for a, b in zip(ca, obs["cvals"])):
-            out.append(("condition/changes-after-later-compilation", "the generated condition functions returned %r, and after another text was compiled (other locals) they return %r at the same point %r" % (obs["cvals"], ca, x)))
-    if not all(math.isfinite(v) for v in x):
-        return out
-    order = info["order"]; pts = info["ptypes"]; names = info["names"]; K = info["K"]
-    sat = []; usable = True
+    status = []; usable = True
     for pos, k in enumerate(order):
         lhs, cmp, rhs = case["rels2"][k]
         c = obs["cvals"][pos]
         sym = T.CMP_SYM[cmp]
+        status.append(None)
         if not isinstance(c, float):
             usable = False
             if isinstance(c, str) and c.startswith("error"):
@@ -366,7 +443,36 @@ def monitor(case, obs, info):
                 out.append(("condition/orientation/%s" % sym, "lhs=%r %s rhs=%r holds with margin %r but the condition value is %r > 0" % (L, cmp, R, t, c)))
             if holds and not margin and not s:
                 out.append((KEY_BAND, "lhs=%r %s rhs=%r holds, but within the tolerance band (%r) the condition value is %r > 0 (penalised)" % (L, cmp, R, t, c)))
-        sat.append((pts[pos], c, (c <= 0) if names[pos] == "inequality" else (c == 0), names[pos]))
+        status[pos] = (c, (c <= 0) if names[pos] == "inequality" else (c == 0), names[pos])
+    return out, status, usable
+
+
+def later_compilation(obs):
+    out = []
+    ca = obs.get("cvals_again")
+    if ca is not None:
+        def _same(a, b):
+            return a == b or (isinstance(a, float) and isinstance(b, float) and a != a and b != b)
+        if isinstance(ca, str) or len(ca) != len(obs["cvals"]) or not all(_same(a, b) for a, b in zip(ca, obs["cvals"])):
+            out.append(("condition/changes-after-later-compilation", "the generated condition functions returned %r, and after another text was compiled (other locals) they return %r at the same point %r" % (obs["cvals"], ca, obs["point"])))
+    return out
+
+
+def monitor(case, obs, info):
+    if case.get("shape"):
+        return c14_shape.monitor(case, obs, info)
+    out = []
+    if "cvals" not in obs:
+        return out
+    x = obs["point"]; consts = case["consts"]
+    tol = (case["locals"] or {}).get("tol", 1e-15); rel = (case["locals"] or {}).get("rel", 1e-15)
+    out.extend(later_compilation(obs))
+    if not all(math.isfinite(v) for v in x):
+        return out
+    order = info["order"]; pts = info["ptypes"]; names = info["names"]; K = info["K"]
+    lo, status, usable = line_status(case, obs, order, names)
+    out.extend(lo)
+    sat = [(pts[pos], st[0], st[1], st[2]) for pos, st in enumerate(status) if st is not None]
     if "pen_overflow" in obs:
         return out
     if "pen" not in obs:
@@ -594,7 +700,43 @@ def bump(h, k, n=1):
     h[k] = h.get(k, 0) + n
 
 
+def compare_cvals(obs, info, mc, hist, cdesc):
+    """condition values of the model vs the implementation; returns (findings, skip): skip = the penalties of this case are not
+    compared (numpy scalar semantics / a toleranced function value may flip `c > 0`)"""
+    fs = []; numpy_inf = False
+    for k, (m, c) in enumerate(zip(mc, obs["cvals"])):
+        if m == "raises" and isinstance(c, float) and (not math.isfinite(c) or info.get("np_mayraise")):
+            bump(hist, "condition:raises-vs-numpy-inf"); numpy_inf = True      # numpy scalars divide by zero without raising
+        elif c == "overflow":
+            numpy_inf = True
+            if m != "raises" and b2f(m) == 0.0 and obs["conds"][k][1].endswith(" == 0"):
+                bump(hist, "condition:overflow-vs-inf")       # a '!=' condition `(..) == 0`: the inner value is inf, `inf == 0` is 0.0
+            elif m != "raises" and math.isfinite(b2f(m)) and (info.get("pow_overflow") or {}).get(k):
+                bump(hist, "condition:overflow-vs-inf(absorbed later)")       # e.g. (x**-1)**0 at a subnormal x: inf**0 == 1.0
+            elif m != "raises" and math.isfinite(b2f(m)):
+                fs.append(Finding("correspondence", "condition/diverges", "condition %d raised OverflowError, model gives the finite %r" % (k, b2f(m)), cdesc))
+            else:
+                bump(hist, "condition:overflow-vs-inf")
+        elif m == "raises" or not isinstance(c, float):
+            if not (m == "raises" and c == "raises"):
+                fs.append(Finding("correspondence", "condition/diverges", "condition %d: model %r impl %r" % (k, m, c), cdesc))
+        elif not same_float(b2f(m), c):
+            if info.get("inexact") and (info.get("tie") or {}).get(k) and {b2f(m), c} == {0.0, 1.0}:
+                # a '!=' condition `(lhs - (rhs)) == 0` whose two sides agree to 1e-6 through exp/log/sin/cos/**: the last ulp of the
+                # function value decides `== 0`
+                bump(hist, "condition:toleranced-inexact-fn"); numpy_inf = True
+            elif info.get("inexact") and math.isfinite(c) and abs(b2f(m) - c) <= 1e-6 * (1 + abs(c)):
+                # a last-ulp difference of exp/log/sin/cos/** can flip `c > 0` / `c == 0` (uniform types, '!=' conditions):
+                # the penalties of such a case are not compared
+                bump(hist, "condition:toleranced-inexact-fn"); numpy_inf = True
+            else:
+                fs.append(Finding("correspondence", "condition/diverges", "condition %r: model %r impl %r" % (obs["conds"][k][1], b2f(m), c), cdesc))
+    return fs, numpy_inf
+
+
 def check_case(case, obs, rep, info, hist=None):
+    if case.get("shape"):
+        return c14_shape.check_case(case, obs, rep, info, hist if hist is not None else {})
     fs = []
     hist = hist if hist is not None else {}
     cdesc = {"case": case, "impl": obs, "model": rep, "request": info.get("line")}
@@ -604,27 +746,8 @@ def check_case(case, obs, rep, info, hist=None):
     if any(b != "true" for b in r[1]["recog"]):
         bad = [obs["conds"][k] for k, b in enumerate(r[1]["recog"]) if b != "true"]
         fs.append(Finding("correspondence", "recogniseCond/rejected", "emitted condition(s) %r are not what the text's line must produce (recog=%r)" % (bad, r[1]["recog"]), cdesc))
-    mc = r[1]["cvals"]
-    numpy_inf = False
-    for k, (m, c) in enumerate(zip(mc, obs["cvals"])):
-        if m == "raises" and isinstance(c, float) and (not math.isfinite(c) or info.get("np_mayraise")):
-            bump(hist, "condition:raises-vs-numpy-inf"); numpy_inf = True      # numpy scalars divide by zero without raising
-        elif c == "overflow":
-            numpy_inf = True
-            if m != "raises" and math.isfinite(b2f(m)):
-                fs.append(Finding("correspondence", "condition/diverges", "condition %d raised OverflowError, model gives the finite %r" % (k, b2f(m)), cdesc))
-            else:
-                bump(hist, "condition:overflow-vs-inf")
-        elif m == "raises" or not isinstance(c, float):
-            if not (m == "raises" and c == "raises"):
-                fs.append(Finding("correspondence", "condition/diverges", "condition %d: model %r impl %r" % (k, m, c), cdesc))
-        elif not same_float(b2f(m), c):
-            if info.get("inexact") and math.isfinite(c) and abs(b2f(m) - c) <= 1e-6 * (1 + abs(c)):
-                # a last-ulp difference of exp/log/sin/cos/** can flip `c > 0` / `c == 0` (uniform types, '!=' conditions):
-                # the penalties of such a case are not compared
-                bump(hist, "condition:toleranced-inexact-fn"); numpy_inf = True
-            else:
-                fs.append(Finding("correspondence", "condition/diverges", "condition %r: model %r impl %r" % (obs["conds"][k][1], b2f(m), c), cdesc))
+    cf, numpy_inf = compare_cvals(obs, info, r[1]["cvals"], hist, cdesc)
+    fs.extend(cf)
     mp = b2f(r[1]["pen"])
     jrep = info.get("jreply")
     if jrep is not None and not numpy_inf and "joined" in obs:
@@ -651,22 +774,35 @@ def check_case(case, obs, rep, info, hist=None):
         fs.append(Finding("correspondence", "penalty-join/diverges", "implementation raised %s" % obs["joined_raises"], cdesc))
     if numpy_inf:
         return fs
+    fs.extend(compare_pen(obs, info, mp, hist, cdesc))
+    return fs
+
+
+def pen_close(mp, got, info):
+    """how a penalty value of the model agrees with the implementation's: None = it does not"""
+    if same_float(mp, got):
+        return "bit-exact"
+    # python evaluates c**2 through C pow(), which is not always the correctly rounded c*c (1 ulp near ties)
+    quad = any(p is not None and p.startswith("quadratic") for p in info["ptypes"])
+    if quad and math.isfinite(mp) and abs(mp - got) <= 1e-14 * abs(mp):
+        return "toleranced-pow"
+    if info.get("inexact") and math.isfinite(mp) and abs(mp - got) <= 1e-6 * (1 + abs(mp)):
+        return "toleranced-inexact-fn"
+    return None
+
+
+def compare_pen(obs, info, mp, hist, cdesc):
+    fs = []
     if "pen_overflow" in obs:
         bump(hist, "pen:overflow")
         if math.isfinite(mp):
             fs.append(Finding("correspondence", "penalty/diverges", "implementation raised OverflowError (c**2), model gives the finite %r" % (mp,), cdesc))
     elif "pen" in obs:
-        if same_float(mp, obs["pen"]):
-            bump(hist, "pen:bit-exact")
+        how = pen_close(mp, obs["pen"], info)
+        if how:
+            bump(hist, "pen:" + how)
         else:
-            # python evaluates c**2 through C pow(), which is not always the correctly rounded c*c (1 ulp near ties)
-            quad = any(p.startswith("quadratic") for p in info["ptypes"])
-            if quad and math.isfinite(mp) and abs(mp - obs["pen"]) <= 1e-14 * abs(mp):
-                bump(hist, "pen:toleranced-pow")
-            elif info.get("inexact") and math.isfinite(mp) and abs(mp - obs["pen"]) <= 1e-6 * (1 + abs(mp)):
-                bump(hist, "pen:toleranced-inexact-fn")
-            else:
-                fs.append(Finding("correspondence", "penalty/diverges", "penalty model=%r impl=%r" % (mp, obs["pen"]), cdesc))
+            fs.append(Finding("correspondence", "penalty/diverges", "penalty model=%r impl=%r" % (mp, obs["pen"]), cdesc))
     return fs
 
 
@@ -716,7 +852,7 @@ def run_shard(pid, seed, shard, ncases, tier, extra):
         for (_, cmp, _) in case["rels2"]:
             bump(hist, "cmp:" + T.CMP_SYM[cmp])
         for p in info["ptypes"]:
-            bump(hist, "ptype:" + p)
+            bump(hist, "ptype:" + (p or "(no entry in the list)"))
         bump(hist, "nvars>=11" if case["n"] >= 11 else "nvars<11"); bump(hist, "iter:%d" % case["iter"])
         bump(hist, "locals:" + ("extra" if case["consts"] else ("custom" if case["locals"] else "default")))
         if case["join"]:
@@ -745,7 +881,17 @@ def witnesses():
             "k": None, "h": None, "iter": 0, "ptype": None, "join": None}
     obs = run_impl(case)
     line, info = build_request(case, obs)
-    return [Finding("monitor", key, what, {"case": case, "impl": obs}) for key, what in monitor(case, obs, info)]
+    out = [Finding("monitor", key, what, {"case": case, "impl": obs}) for key, what in monitor(case, obs, info)]
+    # F60: the pair generate_conditions returns + a type list of its (outer) length: the equality line gets no term
+    case = {"kind": "cond", "regime": "small", "n": 3, "scheme": ("base", "x", True), "locals": None, "consts": {},
+            "rels2": [(("v", 0), "<=", ("n", "1.")), (("v", 1), "<=", ("n", "2.")), (("v", 2), "=", ("n", "3."))],
+            "x": [0.0, 2.0, 0.0], "drive": False, "k": None, "h": None, "iter": 0, "ptype": None, "join": None, "grouping": None,
+            "shape": {"how": "pair"}, "ptype_s": ["quadratic_inequality", "quadratic_equality"], "ptype_form": "outer-length",
+            "ptype_tuples": False}
+    obs = run_impl(case)
+    line, info = build_request(case, obs)
+    out += [Finding("monitor", key, what, {"case": case, "impl": obs}) for key, what in monitor(case, obs, info)]
+    return out
 
 
 def replay(path):
@@ -812,7 +958,7 @@ def replay(path):
 def main(tier, seed):
     t0 = time.time()
     proof = framework.proof_stage(PID, MODULE, THEOREMS, tier)
-    nshards, per = (16, 300) if tier == "quick" else (64, 6000)
+    nshards, per = (16, 300) if tier == "quick" else (64, 5000)
     run = framework.run_shards("c14", "run_shard", PID, seed, nshards, per, tier)
     run["findings"] = witnesses() + run["findings"]
 
@@ -827,7 +973,13 @@ def main(tier, seed):
             "a separate stream (1/8) drives barrier_inequality / lagrange_(in)equality through generate_penalty with iter()/iter(i)/store(x)/clear(); points on the boundary, one ulp either "
             "side, around the tolerance band, integer points (exact equalities), huge/tiny; 35% of the cases evaluate the penalty at the "
             "output of generate_constraint(generate_solvers(text)) of the same isolated-form text. non-trivial = non-zero penalty or a "
-            "constraint-driven point")
+            "constraint-driven point. 45% of the cases (shape:* in the histogram) reach generate_penalty through the argument-shape space: the pair "
+            "generate_conditions returns / a tuple, list or nesting of TEXTS (1-4 blocks of the lines, empty texts, one-element wrappers) / a "
+            "hand-made nesting of the condition functions (tuples, lists, empty groups, depth 0-4) / a flat list / one function outside any "
+            "sequence / a numpy object array / no line at all; ptype = None | one type | flat list | nested like the conditions | nested "
+            "differently | longer | too short | as long as the OUTER sequence (finding F60); join=and_/or_ over the top-level items with ptype = "
+            "None | one | an entry per member | one list for all members | fewer entries than members (generate_penalty raises); k, h keywords; "
+            "every line of every text is judged (orientation, kind, documented sum, zero set, joined zero set, constraint of the same texts)")
     tb = ["Lean 4.33 kernel; axioms per theorem listed under coverage.theorems",
           "translator harness/symtrans.py (python ast -> Emitted.Expr) untrusted, validated per case by bit-exact agreement of every "
           "condition value and of the penalty with the Lean evaluation",
@@ -835,7 +987,10 @@ def main(tier, seed):
           "recogniseCond / condEmit (Model/Emitted.lean) characterised in Props/C14.lean; run on what the current tree emits",
           "penalty types: the six conforming types at iteration n with k' = k*h^n; join=and_/or_ modelled by Model/EmittedJoin.penJoin "
           "(member penalties at iteration 0, joining multiplier 1) and compared bit for bit together with every member penalty; "
-          "barrier / lagrange types: monitored only (independent reading of the documented per-line formulas and of the iteration state)"]
+          "barrier / lagrange types: monitored only (independent reading of the documented per-line formulas and of the iteration state)",
+          "argument shapes: Model/EmittedPShape.lean (gpItems / gpMembers over EmittedShape.Nest) run by the driver on the nesting and the ptype "
+          "of the case; WHICH (type, condition) pairs were stacked is compared with the generated penalty's own __doc__ (and every member's), "
+          "the values bit for bit; the nesting generate_conditions returns is compared with the generator's own structure of the texts"]
     assumptions = ["IEEE binary64 + - * / and comparisons agree between Lean Float and CPython; c**2 (C pow) equals c*c except for a last-ulp "
                    "difference near ties: a penalty with quadratic terms that is not bit-identical is accepted within 1e-14 relative and "
                    "counted as pen:toleranced-pow; python's OverflowError of c**2 corresponds to the model's inf; pow(h,n) is exact for the "
